@@ -12,6 +12,7 @@ import (
 	"github.com/attestantio/go-eth2-client/spec/phase0"
 	"github.com/attestantio/vouch/internal/vnd"
 	"github.com/attestantio/vouch/internal/vstub"
+	"github.com/rs/zerolog"
 )
 
 type c07Provider struct {
@@ -40,10 +41,18 @@ func (p *c07Provider) BeaconBlockRoot(ctx context.Context, _ *api.BeaconBlockRoo
 	return &api.Response[*phase0.Root]{Data: p.data, Metadata: map[string]any{}}, nil
 }
 
+// c07New builds the strategy through the package's constructor.
+func c07New(timeout time.Duration, providers map[string]eth2client.BeaconBlockRootProvider) *Service {
+	s, err := New(context.Background(), WithLogLevel(zerolog.Disabled), WithClientMonitor(vstub.ClientMonitor{}),
+		WithTimeout(timeout), WithBeaconBlockRootProviders(providers))
+	vnd.Assert(err == nil && s != nil, "C07.new.accepted")
+	return s
+}
+
 func c07First(n int, honour bool) (left int) {
 	timeout := time.Duration(vnd.I64("timeout"))
 	vnd.Assume(timeout >= 2 && timeout <= 60000) // virtual nanoseconds: only the order of instants matters
-	s := &Service{clientMonitor: vstub.ClientMonitor{}, timeout: timeout, beaconBlockRootProviders: map[string]eth2client.BeaconBlockRootProvider{}}
+	providers := map[string]eth2client.BeaconBlockRootProvider{}
 	provs := make([]*c07Provider, n)
 	for i := 0; i < n; i++ {
 		p := &c07Provider{name: []string{"node-a", "node-b", "node-c"}[i], honour: honour}
@@ -52,8 +61,9 @@ func c07First(n int, honour bool) (left int) {
 		p.fail = vnd.Bool("fail")
 		p.data = &phase0.Root{byte(i + 1)}
 		provs[i] = p
-		s.beaconBlockRootProviders[p.name] = p
+		providers[p.name] = p
 	}
+	s := c07New(timeout, providers) // New rejects an empty provider map, so it runs once the nodes exist
 	start := vnd.NowNs()
 	resp, err := s.BeaconBlockRoot(context.Background(), &api.BeaconBlockRootOpts{Block: "head"})
 	elapsed := time.Duration(vnd.NowNs() - start)
